@@ -239,7 +239,7 @@ ResampleDraw ==
 \* the code's nested ifs
 Return ==
     /\ pc = "return"
-    /\ out' = IF RetBlobs /\ bs # <<>>
+    /\ out' = IF RetBlobs /\ HasBlobs                         \* `return_blobs and blobs is not None`
                 THEN (IF RetLogw THEN <<"x", "weights", "logl", "blobs", "logw">>
                                  ELSE <<"x", "weights", "logl", "blobs">>)
                 ELSE (IF RetLogw THEN <<"x", "weights", "logl", "logw">>
